@@ -618,6 +618,12 @@ impl CPU {
             self.nmi = false;
         }
 
+        // A maskable request is ignored while interrupts are disabled : the instruction at (pc)
+        // must not see it (RST consults the request to choose its return address)
+        if !self.iff1 {
+            self.int = None;
+        }
+
         // Interrupt requested in interrupt mode 1 ? Restart at address 0038h (opcode 0xFF)
         if self.iff1 && self.int.is_some() && self.im == 1 {
             self.int = Some(0xFF)
